@@ -361,10 +361,27 @@ def vivo_trace(tid, rec_events, raw, cfg, mode, check, unit=1e-3):
     return {'id': tid, 'hdr': hdr, 'ev': out}
 
 
+class Hang(Exception):
+    pass
+
+
+def _watchdog(seconds):
+    """a strategy can drive jesse's matching loop into a livelock (a hook that flips the position with a market
+    order each time it opens); a run that does not end is dropped and counted, it is not a verdict of C02/C08/C09"""
+    import signal
+
+    def on_alarm(*a):
+        raise Hang()
+    signal.signal(signal.SIGALRM, on_alarm)
+    signal.alarm(seconds)
+
+
 def run_vivo(item):
     """forked worker: one real research.backtest under the Recorder -> encoded trace + run statistics.
     item: dict(id, policy, cfg, walk=dict(kind, n, seed, ...), fast, tf, check, [candles])"""
     from ..session import Recorder, run_backtest, lattice_walk, real_walk
+    import signal
+    _watchdog(item.get('timeout', 120))
     w = dict(item['walk'])
     kind = w.pop('kind')
     if kind == 'given':
@@ -376,7 +393,11 @@ def run_vivo(item):
     try:
         routes = [{'symbol': SYM, 'timeframe': item.get('tf', '1m')}]
         out = run_backtest(item['policy'], cfg, {SYM: raw.copy()}, routes=routes, fast=item['fast'])
+    except Hang:
+        return None, {'hang': True, 'fills': 0, 'cancels': 0, 'submits': 0, 'markets': 0, 'liq': 0, 'exc': 'hang',
+                      'minutes': 0}
     finally:
+        signal.alarm(0)
         rec.uninstall()
     tr = vivo_trace(item['id'], rec.ev, raw, cfg, 'fast' if item['fast'] else 'step', item['check'])
     kinds = [e['k'] for e in tr['ev']]
@@ -494,9 +515,12 @@ def run_liq_case(item):
 
     def one(series):
         rec = Recorder(account=True).install()
+        _watchdog(120)
         try:
             out = run_backtest(None, cfg, {SYM: series.copy()}, routes=routes, fast=item['fast'], strategy_cls=cls)
         finally:
+            import signal
+            signal.alarm(0)
             rec.uninstall()
         return rec, out
     rec1, out1 = one(liq_series(p, []))
@@ -561,42 +585,48 @@ def jump_event(pc, cd):
     return {'k': 'jump', 'cd': [rk[x] for x in cd], 'pc': rk[pc], 'f': [rk[x] for x in fv]}
 
 
+def table_call(call):
+    """call = ['split', o, c, h, l, p] | ['jump', pc, o, c, h, l] (floats) -> event"""
+    if call[0] == 'split':
+        return split_event(tuple(call[1:5]), call[5])
+    return jump_event(call[1], tuple(call[2:6]))
+
+
 def split_table(K, n_real, seed, jump_K=5):
-    """events: every (candle, price in range) of lattice K; n_real real-valued cases (every ordinal arrangement
+    """calls: every (candle, price in range) of lattice K; n_real real-valued cases (every ordinal arrangement
     reached through random monotone maps of lattice cases, plus free random candles); every (previous close,
-    candle) of lattice jump_K for the gap normalisation.  Returns (events, counts)."""
+    candle) of lattice jump_K for the gap normalisation.  Returns (events, counts, calls)."""
     rng = random.Random(seed)
-    ev, keys = [], set()
+    calls = []
     lattice = [(cd, p) for cd in candles_on(K) for p in range(cd[3], cd[2] + 1)]
     for cd, p in lattice:
-        ev.append(split_event(tuple(float(x) for x in cd), float(p)))
-        keys.add(('L',) + cd + (p,))
-    n_lat = len(ev)
+        calls.append(['split'] + [float(x) for x in cd] + [float(p)])
+    n_lat = len(calls)
     for i in range(n_real):
         if i % 4 != 3:
             cd, p = lattice[rng.randrange(len(lattice))]
             V = monotone_map(K, rng, 'real')
-            e = split_event(tuple(V[x] for x in cd), V[p])
+            calls.append(['split'] + [V[x] for x in cd] + [V[p]])
         else:
             o = rng.uniform(1, 1000)
             c = o * (1 + rng.gauss(0, 0.01)) if rng.random() < 0.9 else o
             h = max(o, c) * (1 + abs(rng.gauss(0, 0.005)) * (rng.random() < 0.8))
             l = min(o, c) * (1 - abs(rng.gauss(0, 0.005)) * (rng.random() < 0.8))
             p = rng.choice([o, c, h, l, rng.uniform(l, h), rng.uniform(l, h)])
-            e = split_event((o, c, h, l), p)
-        ev.append(e)
-        keys.add(('R', tuple(e['cd']), e['p']))
+            calls.append(['split', o, c, h, l, p])
     n_jump = 0
     for cd in candles_on(jump_K):
         for pc in range(1, jump_K + 1):
-            ev.append(jump_event(float(pc), tuple(float(x) for x in cd)))
+            calls.append(['jump', float(pc)] + [float(x) for x in cd])
             n_jump += 1
             if rng.random() < 0.3:
                 V = monotone_map(jump_K, rng, 'real')
-                ev.append(jump_event(V[pc], tuple(V[x] for x in cd)))
+                calls.append(['jump', V[pc]] + [V[x] for x in cd])
                 n_jump += 1
+    ev = [table_call(c) for c in calls]
+    keys = set((e['k'], tuple(e['cd']), e.get('p', e.get('pc'))) for e in ev)
     return ev, {'lattice_cases': n_lat, 'real_cases': n_real, 'jump_cases': n_jump,
-                'distinct_ordinal_cases': len(keys)}
+                'distinct_ordinal_cases': len(keys)}, calls
 
 
 def liq_price_reads(item):
